@@ -158,6 +158,7 @@ type Contract struct {
 	IsIface       bool
 	Lets          []*Clause // let name = expr (evaluated at entry)
 	ChanInvs      []*ChanInvDecl
+	NeverCalls    []string      // deny-list: none of these is called by the function, its closures or (transitively) its same-package static callees
 	NoBlockingOps bool          // no channel send / receive / blocking select in the function, its closures and its same-package callees
 	CallsOnly     []string      // frame on callees: the function may only call functions whose name contains one of these
 	CallersOnly   []string      // frame on callers: the function may only be called from these functions
@@ -181,7 +182,7 @@ type PkgSpec struct {
 	Dir            string
 	Contracts      map[string]*Contract
 	GlobalInvs     []*Clause
-	FsWriters      []string // fs-writers-only: the only functions of the package that may create, replace, rename or remove files
+	FsWriters      []string                  // fs-writers-only: the only functions of the package that may create, replace, rename or remove files
 	Defines        map[string]*SpecDefine    // package-level spec functions: define name(a, b) == expr
 	TypeInvs       map[string][]*Clause      // type name -> invariants over `self`
 	TypeChanInvs   map[string][]*ChanInvDecl // type name -> channel invariants of fields (ChanSrc = field name)
@@ -414,6 +415,8 @@ func loadPkgSpec(path, pkgPath string) (*PkgSpec, error) {
 			default:
 				return nil, fmt.Errorf("%s:%d: unknown loop clause %s", path, ln.n, parts[1])
 			}
+		case "never-calls":
+			cur.NeverCalls = append(cur.NeverCalls, splitTopLevelCommas(rest)...)
 		case "no-blocking-ops":
 			cur.NoBlockingOps = true
 		case "calls-only":
